@@ -215,4 +215,377 @@ theorem Inv.fsubCount {s s' : St} (hi : Inv s) {f : Nat} {old : Int}
         simp only [Loc]; simp_all
   · cases h
 
+theorem Inv.xchgCount {s s' : St} (hi : Inv s) {f : Nat} {old : Int}
+    (h : step s (.xchgCount f old) = some s') : Inv s' := by
+  simp only [step] at h
+  split at h
+  · next hc =>
+    obtain ⟨hpc, hold, hnn, _⟩ := hc
+    simp only [Option.bind_eq_some_iff] at h
+    obtain ⟨s1, h1, h⟩ := h
+    obtain ⟨x, hx, rfl⟩ := stepI_shape h1
+    obtain ⟨hmx, hheld, hal, hmiss, howed, hcl, hpo⟩ := hi.granted hpc hx
+    have hloc := hi.loc f; rw [hpc] at hloc; simp only [Loc] at hloc
+    have hcnt := hi.cnt; have hpops := hi.pops
+    have hk : ((old.toNat : Nat) : Int) = old := Int.toNat_of_nonneg hnn
+    simp only [] at h
+    split at h
+    · next hz =>
+      -- nobody waiting: release I at once
+      obtain ⟨y, hy, rfl⟩ := toUnlockI_shape h
+      have hmy : MI y := hmx.sync.step hy
+      have hyo : ∀ g, g ≠ f → y.pc (A g) = x.pc (A g) := fun g hg =>
+        mx_pc_other hy (by simp only [mxActor]; intro h; exact hg (A_inj h))
+      refine ⟨hmy, hi.mim, ?_, ?_, ?_, ?_, ?_, hi.hdLe, ?_, ?_, ?_, ?_, ?_⟩
+      · exact upd_forall (P := fun g p => needsI p = true → y.pc (A g) = .held) (hal_hold hal)
+          (by simp [needsI])
+      · show (0 : Int) + s.miss = (s.nreg : Int) - ((s.nclaim + old.toNat : Nat) : Int)
+        push_cast; omega
+      · exact upd_forall (P := fun _ p => p = Pc.sigMiss → s.miss = 1) (hal_miss hal) (by simp)
+      · intro h; exact absurd hmiss h
+      · show s.hd + old.toNat = s.nclaim + old.toNat; omega
+      · exact upd_forall (P := fun _ p => ∀ bc k w, p = Pc.wake bc k w → old.toNat = k ∧ (prePop w = true → 1 ≤ k))
+          (hal_wake hal) (by simp)
+      · intro h; exact absurd hz h
+      · intro n g hg; have := hi.ordReg n g hg
+        simp only [upd]; split
+        · next h => subst h; exact this
+        · exact this
+      · intro w hw; have := hi.dh w hw
+        simp only [upd]; split
+        · next h => subst h; exact this
+        · exact this
+      · refine loc_upd hi.loc ?_
+        simp only [Loc]; simp_all
+    · next hnz =>
+      simp at h; subst h
+      refine ⟨hmx, hi.mim, ?_, ?_, ?_, ?_, ?_, hi.hdLe, ?_, ?_, ?_, ?_, ?_⟩
+      · exact upd_forall (P := fun g p => needsI p = true → x.pc (A g) = .held) (hal_hold hal)
+          (fun _ => hheld)
+      · show (0 : Int) + s.miss = (s.nreg : Int) - ((s.nclaim + old.toNat : Nat) : Int)
+        push_cast; omega
+      · exact upd_forall (P := fun _ p => p = Pc.sigMiss → s.miss = 1) (hal_miss hal) (by simp)
+      · intro h; exact absurd hmiss h
+      · show s.hd + old.toNat = s.nclaim + old.toNat; omega
+      · exact upd_forall (P := fun _ p => ∀ bc k w, p = Pc.wake bc k w → old.toNat = k ∧ (prePop w = true → 1 ≤ k))
+          (hal_wake hal) (by intro bc k w h; simp at h; obtain ⟨_, rfl, _⟩ := h; exact ⟨rfl, fun _ => by omega⟩)
+      · intro _; exact ⟨f, _, _, _, upd_same _ _ _⟩
+      · intro n g hg; have := hi.ordReg n g hg
+        simp only [upd]; split
+        · next h => subst h; exact this
+        · exact this
+      · intro w hw; have := hi.dh w hw
+        simp only [upd]; split
+        · next h => subst h; exact this
+        · exact this
+      · refine loc_upd hi.loc ?_
+        simp only [Loc]; simp_all
+  · cases h
+
+theorem Inv.faddCount {s s' : St} (hi : Inv s) {t f : Nat} {old : Int}
+    (h : step s (.faddCount t f old) = some s') : Inv s' := by
+  simp only [step] at h
+  split at h
+  · next hpc =>
+    -- registration
+    split at h
+    · next hc =>
+      simp at h; subst h
+      obtain ⟨a1, a2, a3, a4⟩ := hi.at f hpc
+      have hcnt := hi.cnt
+      refine hi.move (f := f) hi.mim (fun w hw => Or.inl hw) hi.mi (fun _ _ => rfl) ?_ rfl rfl rfl
+        rfl (fun n g hg => Or.inl hg) (Nat.le_refl _) rfl rfl ?_ ?_ ?_ ?_ ?_ ?_ ?_ ?_ ?_
+      · show old + 1 + s.miss = ((s.nreg + 1 : Nat) : Int) - s.nclaim
+        push_cast; omega
+      all_goals side
+    · cases h
+  · split at h
+    · next hpc =>
+      -- a signal that found nobody puts the count back
+      split at h
+      · next hc =>
+        obtain ⟨x, hx, rfl⟩ := toUnlockI_shape h
+        obtain ⟨a1, a2, a3, a4⟩ := hi.at f hpc
+        have hm1 : s.miss = 1 := a2 rfl
+        have hcnt := hi.cnt
+        have huniq : ∀ g, needsI (s.pc g) = true → g = f :=
+          fun g hg => hi.unique hg (by rw [hpc]; rfl)
+        refine ⟨hi.mi.sync.step hx, hi.mim, ?_, ?_, ?_, ?_, hi.pops, hi.hdLe, ?_, ?_, hi.ordReg, hi.dh, ?_⟩
+        · intro g; simp only [upd]; split
+          · simp [needsI]
+          · next hg =>
+            intro hn
+            show x.pc (A g) = .held
+            rw [mx_pc_other hx (by simp only [mxActor]; intro h; exact hg (A_inj h))]
+            exact hi.holdI g hn
+        · show old + 1 + 0 = (s.nreg : Int) - s.nclaim
+          omega
+        · intro g; simp only [upd]; split
+          · simp
+          · next hg => intro hs; exact absurd (huniq g (by rw [hs]; rfl)) hg
+        · intro h; exact absurd rfl h
+        · exact upd_forall (P := fun _ p => ∀ bc k w, p = Pc.wake bc k w → s.owed = k ∧ (prePop w = true → 1 ≤ k))
+            hi.owedPc (by simp)
+        · intro h
+          exact upd_exists (P := fun p => ∃ bc k w, p = Pc.wake bc k w) (hi.owedEx h)
+            (by rw [hpc]; simp)
+        · refine loc_upd_pc hi.loc ?_
+          simp only [Loc] at a4 ⊢; simp_all
+      · cases h
+    · cases h
+
+theorem Inv.callWait {s s' : St} (hi : Inv s) {f : Nat}
+    (h : step s (.callWait f) = some s') : Inv s' := by
+  simp only [step] at h
+  split at h
+  · next hc =>
+    simp at h; subst h
+    obtain ⟨a1, a2, a3, a4⟩ := hi.at f hc.1
+    refine hi.pcmove (f := f) rfl rfl rfl rfl rfl rfl rfl rfl rfl rfl rfl ?_ ?_ ?_ ?_ ?_ ?_
+    all_goals side
+  · cases h
+
+theorem Inv.retWait {s s' : St} (hi : Inv s) {f : Nat}
+    (h : step s (.retWait f) = some s') : Inv s' := by
+  simp only [step] at h
+  split at h
+  · next hpc =>
+    simp only [Option.map_eq_some_iff] at h
+    obtain ⟨s1, h1, rfl⟩ := h
+    obtain ⟨x, hx, rfl⟩ := stepM_shape h1
+    have hi1 := hi.of_stepM_A (f := f) hx rfl
+    obtain ⟨a1, a2, a3, a4⟩ := hi1.at f (p := .relock) hpc
+    refine hi1.gmove (f := f) rfl rfl rfl rfl rfl rfl rfl rfl rfl rfl rfl ?_ ?_ ?_ ?_ ?_ ?_ ?_ ?_ ?_
+    all_goals side
+  · cases h
+
+theorem Inv.fsub {s s' : St} (hi : Inv s) {q : Q} {f : Nat} {old : Int}
+    (h : step s (.fsub q f old) = some s') : Inv s' := by
+  simp only [step] at h
+  split at h
+  · split at h
+    · cases h
+    · split at h
+      · next hpc =>
+        simp only [Option.map_eq_some_iff, Option.bind_eq_some_iff] at h
+        obtain ⟨s2, ⟨s1, h1, h2⟩, rfl⟩ := h
+        obtain ⟨x, hx, rfl⟩ := stepM_shape h1
+        have hi1 := hi.of_stepM_A (f := f) hx rfl
+        obtain ⟨y, hy, rfl⟩ := stepM_shape h2
+        have hi2 := hi1.of_stepM_A (f := f) hy rfl
+        obtain ⟨a1, a2, a3, a4⟩ := hi2.at f (p := .woken) hpc
+        refine hi2.pcmove (f := f) rfl rfl rfl rfl rfl rfl rfl rfl rfl rfl rfl ?_ ?_ ?_ ?_ ?_ ?_
+        all_goals side
+      · split at h
+        · exact hi.noteM (f := f) rfl h
+        · cases h
+  · exact hi.dispatch h
+
+/-- the deferred unlock of M has been performed on behalf of `w` -/
+theorem Inv.bumpU {s : St} (hi : Inv s) {w : Nat} (h1 : s.m.pc (D w) ≠ .held)
+    (h2 : (s.gh w).nU < (s.gh w).nL) (d : Nat → Option Nat) :
+    Inv { s with deferred := d, gh := upd s.gh w { s.gh w with nU := (s.gh w).nU + 1 } } := by
+  inv_frame hi
+  · intro n g hg; have := hi.ordReg n g hg
+    simp only [upd]; split
+    · next h => subst h; exact this
+    · exact this
+  · intro w' hw'; have := hi.dh w' hw'
+    simp only [upd]; split
+    · next h => subst h; exact absurd hw' h1
+    · exact this
+  · intro g; simp only [upd]; split
+    · next h =>
+      subst h; have := hi.loc g
+      simp only [Loc] at this ⊢
+      refine ⟨this.1, this.2.1, this.2.2.1, ?_⟩
+      show (s.gh g).nU + 1 ≤ (s.gh g).nL
+      omega
+    · exact hi.loc g
+
+theorem Inv.fadd {s s' : St} (hi : Inv s) {q : Q} {t g : Nat} {old : Int}
+    (h : step s (.fadd q t g old) = some s') : Inv s' := by
+  simp only [step] at h
+  split at h
+  · split at h
+    · cases h
+    · split at h
+      · exact hi.noteM (f := g) rfl h
+      · split at h
+        · next w hw =>
+          split at h
+          · next hheld =>
+            simp only [Option.map_eq_some_iff, Option.bind_eq_some_iff] at h
+            obtain ⟨s3, ⟨s2, ⟨s1, h1, h2⟩, h3⟩, rfl⟩ := h
+            have hlt := hi.dh w hheld
+            obtain ⟨x, hx, rfl⟩ := stepM_shape h1
+            have hi1 := hi.of_stepM hx (fun w => ⟨by simp, by simp⟩)
+            obtain ⟨y, hy, rfl⟩ := stepM_shape h2
+            have hi2 := hi1.of_stepM hy (fun w => ⟨by simp, by simp⟩)
+            have hy' : y.pc (D w) ≠ .held := by
+              rcases (mx_fadd hy).2 with h | h <;> rw [h] <;> simp
+            obtain ⟨hi3, hgh, hnh⟩ := hi2.retireD h3
+            have := hi3.bumpU (w := w) (hnh hy') (by rw [hgh]; exact hlt)
+              (upd s3.deferred t none)
+            exact this
+          · cases h
+        · cases h
+  · exact hi.dispatch h
+
+/-- every step of the model preserves the invariant -/
+theorem Inv.step {s s' : St} {e : Ev} (hi : Inv s) (h : step s e = some s') : Inv s' := by
+  cases e with
+  | callLock f => simp only [Cond.step] at h; split at h; exact hi.noteM (f := f) rfl h; cases h
+  | retLock f => simp only [Cond.step] at h; split at h; exact hi.noteM (f := f) rfl h; cases h
+  | callUnlock f => simp only [Cond.step] at h; split at h; exact hi.noteM (f := f) rfl h; cases h
+  | retUnlock f => simp only [Cond.step] at h; split at h; exact hi.noteM (f := f) rfl h; cases h
+  | csEnter f => simp only [Cond.step] at h; split at h; exact hi.noteM (f := f) rfl h; cases h
+  | csExit f v => simp only [Cond.step] at h; split at h; exact hi.noteM (f := f) rfl h; cases h
+  | callWait f => exact hi.callWait h
+  | retWait f => exact hi.retWait h
+  | callSignal f hh => exact hi.callSig (by simpa only [Cond.step] using h)
+  | retSignal f => exact hi.retSig (by simpa only [Cond.step] using h)
+  | callBroadcast f hh => exact hi.callSig (by simpa only [Cond.step] using h)
+  | retBroadcast f => exact hi.retSig (by simpa only [Cond.step] using h)
+  | fsubCount f old => exact hi.fsubCount h
+  | faddCount t f old => exact hi.faddCount h
+  | xchgCount f old => exact hi.xchgCount h
+  | fsub q f old => exact hi.fsub h
+  | fadd q t g old => exact hi.fadd h
+  | xchgTail q f o n => exact hi.dispatch (by simpa only [Cond.step] using h)
+  | rHead q f n => exact hi.dispatch (by simpa only [Cond.step] using h)
+  | wHead q f n => exact hi.dispatch (by simpa only [Cond.step] using h)
+  | wState f g v => exact hi.dispatch (by simpa only [Cond.step] using h)
+  | rState f g v => exact hi.dispatch (by simpa only [Cond.step] using h)
+  | rNode f g n => exact hi.dispatch (by simpa only [Cond.step] using h)
+  | wNode f g n => exact hi.dispatch (by simpa only [Cond.step] using h)
+  | wData f n g => exact hi.dispatch (by simpa only [Cond.step] using h)
+  | rData f n g => exact hi.dispatch (by simpa only [Cond.step] using h)
+  | wNext f n x => exact hi.dispatch (by simpa only [Cond.step] using h)
+  | rNext f n x => exact hi.dispatch (by simpa only [Cond.step] using h)
+
+theorem inv_of_run {es : List Ev} {s : St} (h : sys.run es = some s) : Inv s :=
+  Sys.inv_of_run sys Inv Inv.init (fun _ _ _ hi hs => Inv.step hi hs) h
+
+/-! ### what individual events require and do (read off `step`) -/
+
+theorem fsubCount_effect {s s' : St} {f : Nat} {old : Int}
+    (h : step s (.fsubCount f old) = some s') :
+    s.pc f = .lockI false ∧ old = s.count ∧
+      (s'.gh f).claimed = (if old ≥ 1 then 1 else (s.gh f).claimed) ∧
+      (s'.gh f).popped = (s.gh f).popped ∧
+      s'.pc f = (if old ≥ 1 then .wake false 1 .top else .sigMiss) := by
+  simp only [step] at h
+  split at h
+  · next hc =>
+    simp only [Option.bind_eq_some_iff] at h
+    obtain ⟨s1, h1, h⟩ := h
+    obtain ⟨x, hx, rfl⟩ := stepI_shape h1
+    refine ⟨hc.1, hc.2.1, ?_⟩
+    split at h
+    · next hge => simp at h; subst h; simp [hge]
+    · next hlt => simp at h; subst h; simp [hlt]
+  · cases h
+
+theorem xchgCount_effect {s s' : St} {f : Nat} {old : Int}
+    (h : step s (.xchgCount f old) = some s') :
+    s.pc f = .lockI true ∧ old = s.count ∧ 0 ≤ old ∧
+      (s'.gh f).claimed = old.toNat ∧ (s'.gh f).popped = (s.gh f).popped ∧
+      s'.pc f = (if old.toNat = 0 then .unlockI true else .wake true old.toNat .top) := by
+  simp only [step] at h
+  split at h
+  · next hc =>
+    simp only [Option.bind_eq_some_iff] at h
+    obtain ⟨s1, h1, h⟩ := h
+    obtain ⟨x, hx, rfl⟩ := stepI_shape h1
+    refine ⟨hc.1, hc.2.1, hc.2.2.1, ?_⟩
+    simp only [] at h
+    split at h
+    · next hz =>
+      obtain ⟨y, hy, rfl⟩ := toUnlockI_shape h
+      simp [hz]
+    · next hnz => simp at h; subst h; simp [hnz]
+  · cases h
+
+theorem retSig_pre {s s' : St} {f : Nat} {bc : Bool} (h : retSig s f bc = some s') :
+    s.pc f = .unlockI bc := by
+  simp only [retSig] at h
+  split at h
+  · next hc => exact hc.1
+  · cases h
+
+theorem retWait_effect {s s' : St} {f : Nat} (h : step s (.retWait f) = some s') :
+    s.pc f = .relock ∧ s'.m.pc (A f) = .held ∧ s'.m.owner = s.m.owner ∧
+      (s.m.pc (A f) = .acquired ∨ s.m.pc (A f) = .parked ∧ s.m.owner = some (A f)) ∧
+      (s'.gh f).nR = (s.gh f).nR + 1 := by
+  simp only [step] at h
+  split at h
+  · next hpc =>
+    simp only [Option.map_eq_some_iff] at h
+    obtain ⟨s1, h1, rfl⟩ := h
+    obtain ⟨x, hx, rfl⟩ := stepM_shape h1
+    have := mx_retLock hx
+    exact ⟨hpc, this.1, this.2.2, this.2.1, by simp⟩
+  · cases h
+
+theorem ctx_c_of_tagC {s s' : St} {e : Ev} (h : dispatch s e = some s') (ht : tagOf e = some .C) :
+    stepC s (actorOf e) e = some s' := by
+  simp only [Cond.dispatch] at h
+  split at h
+  · split at h
+    · exact h
+    · cases h
+  all_goals (try (split at h <;> simp_all))
+  all_goals (try cases h)
+
+/-- a pop of the cond's waiter queue: who may do it and what it does -/
+theorem popC_effect {s s' : St} {f x : Nat} (h : step s (.wHead .C f x) = some s') :
+    ∃ bc k hh n g, s.pc f = .wake bc k (.gotNext hh x) ∧ s.order[s.hd]? = some (n, g) ∧
+      s.pc g = .parked ∧ s'.hd = s.hd + 1 ∧ s'.pc g = .woken ∧ s'.order = s.order ∧
+      (s'.gh f).popped = (s.gh f).popped + 1 ∧ (s'.gh f).claimed = (s.gh f).claimed := by
+  simp only [step] at h
+  have h := ctx_c_of_tagC h rfl
+  simp only [actorOf, Cond.stepC] at h
+  split at h
+  · next bc k hh x' hpc =>
+    split at h
+    · next hc =>
+      split at h
+      · next n g hord =>
+        by_cases hg : s.pc g = .parked ∧ g ≠ f
+        · simp [hg.1, hg.2] at h; subst h
+          refine ⟨bc, k, hh, n, g, ?_, hord, hg.1, rfl, ?_, rfl, ?_, ?_⟩
+          · rw [hpc, hc.2]
+          · simp [upd, hg.2]
+          · simp [upd]
+          · simp [upd]
+        · simp [hg] at h
+      · cases h
+    · cases h
+  · cases h
+
+/-- `fetch_add(M.counter)`: either the harness-level unlock by M's holder, or the deferred unlock
+    on behalf of the waiter `w` registered on that kernel thread, whose link is done -/
+theorem faddM_pre {s s' : St} {t g : Nat} {old : Int} (h : step s (.fadd .M t g old) = some s') :
+    (s.pc g = .idle ∧ s.m.pc (A g) = .unlockCalled) ∨
+    (∃ w, s.deferred t = some w ∧ s.m.pc (D w) = .held ∧ s.m.owner = some (D w) ∧
+      s'.deferred t = none) := by
+  simp only [step] at h
+  split at h
+  · split at h
+    · cases h
+    · split at h
+      · next hc => exact Or.inl hc
+      · split at h
+        · next w hw =>
+          split at h
+          · next hheld =>
+            simp only [Option.map_eq_some_iff, Option.bind_eq_some_iff] at h
+            obtain ⟨s3, ⟨s2, ⟨s1, h1, h2⟩, h3⟩, rfl⟩ := h
+            obtain ⟨x, hx, rfl⟩ := stepM_shape h1
+            exact Or.inr ⟨w, hw, hheld, (mx_callUnlock hx).2.1, by simp⟩
+          · cases h
+        · cases h
+  · next hq => exact absurd trivial hq
+
 end LibfiberVerif.Cond
